@@ -397,13 +397,13 @@ def hist_cases(ctx, rnd, n_cases, n_ev):
     qc = []
     for g in range(n_cases):
         n = rnd.randrange(5, n_ev)
-        kind = ["dyadic", "float", "none", "negative"][g % 4]
+        kind = ["dyadic", "float", "none", "negative", "cancel"][g % 5]
         m = np.array([rnd.uniform(-0.5, 2.5) for _ in range(n)])
         if kind == "dyadic":
             w = np.array([rnd.randrange(0, 33) / 8.0 for _ in range(n)])
         elif kind == "float":
             w = np.array([rnd.uniform(0.0, 3.0) for _ in range(n)])
-        elif kind == "negative":
+        elif kind in ("negative", "cancel"):
             w = np.array([rnd.randrange(-16, 33) / 8.0 for _ in range(n)])
         else:
             w = None
@@ -416,6 +416,17 @@ def hist_cases(ctx, rnd, n_cases, n_ev):
             # some events exactly on edges (half-open / last-closed semantics)
             for j in range(min(3, n)):
                 m[j] = rnd.choice(edges)
+        if kind == "cancel":
+            # one bin holds events whose weights sum to exactly zero (signal-minus-sideband): occupied, not empty
+            ed = np.linspace(0.0, 2.0, kw["bins"] + 1) if g % 2 == 0 else kw["bins"]
+            kb = rnd.randrange(len(ed) - 1)
+            lo, hi = float(ed[kb]), float(ed[kb + 1])
+            inside = (m >= lo) & (m < hi) if kb < len(ed) - 2 else (m >= lo) & (m <= hi)
+            m[inside] = -0.4  # out of range
+            grp = rnd.choice([[1.0, -1.0], [1.0, -0.5, -0.5], [2.5, -2.5, 0.75, -0.75]])
+            for j, wj in enumerate(grp):
+                m[n - 1 - j] = lo + (hi - lo) * rnd.choice([0.25, 0.5, 0.625, 0.75])
+                w[n - 1 - j] = wj
         ctx.count("hist:%s:%s" % (kind, "uniform" if g % 2 == 0 else "edges"))
         with warnings.catch_warnings():
             warnings.simplefilter("ignore")
@@ -428,7 +439,7 @@ def hist_cases(ctx, rnd, n_cases, n_ev):
         ww = np.ones(n) if w is None else w
         empty = [bool(np.isinf(e)) for e in err]
         errs = [0.0 if np.isinf(e) else float(e) for e in err]
-        exact = kind in ("dyadic", "none", "negative")
+        exact = kind in ("dyadic", "none", "negative", "cancel")
         sc = float(np.sum(np.abs(ww))) + 1
         atol = Fraction(0) if exact else Fraction(1, 10 ** 12) * frac(sc)
         atol2 = Fraction(1, 10 ** 11) * frac(float(np.sum(ww * ww)) + 1)
